@@ -542,6 +542,12 @@ class HTTPConnectionPool(ConnectionPool, RequestMethods):
         response._connection = response_conn  # type: ignore[attr-defined]
         response._pool = self  # type: ignore[attr-defined]
 
+        if preload_content and response_conn is not None:
+            # The body was read to the end while the response was being built,
+            # before the connection was attached to it above, so reading it did
+            # not release the connection (as it does for a streamed response).
+            response.release_conn()
+
         log.debug(
             '%s://%s:%s "%s %s %s" %s %s',
             self.scheme,
